@@ -162,7 +162,7 @@ class ConfigTargetVisibility(object):
             return (False, None)
         if type(node.item) is kconfiglib.Symbol or type(node.item) is kconfiglib.Choice:
             dependencies = node.item.direct_dep  # "depends on" for configs
-            name_id = node.item.name
+            name_id = node.item  # the item itself: choices may have no name, and names may equal menu titles
             simple_def = len(node.item.nodes) <= 1  # defined only in one source file
             # Probably it is not necessary to check the default statements.
         else:
@@ -171,7 +171,7 @@ class ConfigTargetVisibility(object):
             # not part of node.visibility, so fold both. Without node.dep, a menu gated off by an (undefined/omitted)
             # dependency would still emit an empty heading even though all its children are hidden.
             dependencies = self.kconfig._make_and(node.visibility, node.dep)
-            name_id = node.prompt[0]
+            name_id = node  # never stored (see below), hence never found
             simple_def = False  # menus can be defined with the same name at multiple locations and they don't know
             # about each other like configs through node.item.nodes. Therefore, they cannot be stored and have to be
             # re-evaluated always.
